@@ -225,7 +225,10 @@ class ProcessServlet(Servlet):
             p.start()
             name = q_out.get()
             if name is None:
-                p.join()  # this will raise exception b/c worker __init__ failed
+                try:
+                    p.join()  # this will raise exception b/c worker __init__ failed
+                finally:
+                    self._stop_workers(q_in)  # do not leave the earlier workers running
             self._workers.append(p)
             logger.debug('   ... worker <%s> is ready', name)
 
@@ -234,13 +237,17 @@ class ProcessServlet(Servlet):
         logger.info('servlet %s is ready', self._worker_cls.__name__)
         self._started = True
 
+    def _stop_workers(self, q_in):
+        if self._workers:
+            q_in.put(None)
+            for w in self._workers:
+                w.join()
+        self._workers = []
+
     def stop(self):
         """Stop the workers."""
         assert self._started
-        self._q_in.put(None)
-        for w in self._workers:
-            w.join()
-        self._workers = []
+        self._stop_workers(self._q_in)
         self._started = False
 
     @property
@@ -343,7 +350,10 @@ class ThreadServlet(Servlet):
             w.start()
             name = q_out.get()
             if name is None:
-                w.join()  # this will raise exception b/c worker __init__ failed
+                try:
+                    w.join()  # this will raise exception b/c worker __init__ failed
+                finally:
+                    self._stop_workers(q_in)  # do not leave the earlier workers running
             self._workers.append(w)
             logger.debug('   ... worker <%s> is ready', name)
 
@@ -352,13 +362,17 @@ class ThreadServlet(Servlet):
         logger.info('servlet %s is ready', self._worker_cls.__name__)
         self._started = True
 
+    def _stop_workers(self, q_in):
+        if self._workers:
+            q_in.put(None)
+            for w in self._workers:
+                w.join()
+        self._workers = []
+
     def stop(self):
         """Stop the worker threads."""
         assert self._started
-        self._q_in.put(None)
-        for w in self._workers:
-            w.join()
-        self._workers = []
+        self._stop_workers(self._q_in)
         self._started = False
 
     @property
@@ -432,7 +446,13 @@ class SequentialServlet(Servlet):
                 self._qs.append(q2)
             else:
                 q2 = q_out
-            s.start(q1, q2)
+            try:
+                s.start(q1, q2)
+            except BaseException:
+                for ss in self._servlets[:i]:
+                    ss.stop()  # do not leave the earlier servlets running
+                self._qs = []
+                raise
             q1 = q2
         self._q_in = q_in
         self._q_out = q_out
@@ -529,7 +549,13 @@ class EnsembleServlet(Servlet):
                 if s.output_queue_type == 'thread'
                 else _SimpleProcessQueue()
             )
-            s.start(q1, q2)
+            try:
+                s.start(q1, q2)
+            except BaseException:
+                for ss in self._servlets[: len(self._qins)]:
+                    ss.stop()  # do not leave the earlier members running
+                self._reset()
+                raise
             self._qins.append(q1)
             self._qouts.append(q2)
         t = Thread(target=self._dequeue, name=f'{self.__class__.__name__}._dequeue')
@@ -703,7 +729,13 @@ class SwitchServlet(Servlet):
                 if s.input_queue_type == 'thread'
                 else _SimpleProcessQueue()
             )
-            s.start(q1, q_out)
+            try:
+                s.start(q1, q_out)
+            except BaseException:
+                for ss in self._servlets[: len(self._qins)]:
+                    ss.stop()  # do not leave the earlier members running
+                self._reset()
+                raise
             self._qins.append(q1)
 
         self._thread_enqueue = Thread(
